@@ -19,7 +19,6 @@ import (
 	"sort"
 	"strings"
 	"testing"
-	"time"
 
 	"github.com/rqlite/rqlite/v10/command/proto"
 )
@@ -151,17 +150,12 @@ func c33History(t *testing.T, rep *vfReport, r *vfRng, nOps int, fk bool) (ops, 
 		sort.Strings(want)
 		e.emit("peers "+strings.Join(want, ";"), "ok")
 		e.hist = append(e.hist, fmt.Sprintf("peers(%s)", strings.Join(want, ";")))
-		err := e.s.Open()
-		if err != nil && strings.Contains(err.Error(), "failed to load any existing snapshots") {
-			// RecoverNode's own snapshot wakes the snapshot store's background reaper; while it
-			// holds the store's write lock raft's non-blocking List/Open fail and start-up aborts.
-			// Timing dependent. Recovery itself is complete (peers file consumed): start again.
-			rep.Fail("recovery-startup-aborted-by-concurrent-reap", fmt.Sprintf("history %v: %v", e.hist, err), map[string]interface{}{"history": e.hist})
-			e.ln.Close()
-			time.Sleep(300 * time.Millisecond)
-			e.newStore()
-			err = e.s.Open()
-		}
+		// RecoverNode's own snapshot wakes the snapshot store's background reaper; while it holds
+		// the store's write lock raft's non-blocking List/Open of snapshots are refused and the
+		// start aborts. Recovery itself is complete by then (peers file consumed), a later start
+		// works: openRetry counts/notes the event and starts again; data and configuration are
+		// checked below either way.
+		err := e.openRetry()
 		if err != nil {
 			rep.Fail("recovery-open-failed", fmt.Sprintf("history %v: %v", e.hist, err), map[string]interface{}{"history": e.hist})
 			break
